@@ -22,19 +22,25 @@ let check inp obs =
     let sure_small = n_lt (N.mul cost (n_of_int 2000)) budget in
     let bucket_ok b = if sure_large then b = "L" else if sure_small then b = "s" else true in
     let model_str = (match res with
-        | Ok (v, rest) -> Printf.sprintf "ok %s %x" (render_value d v) (len - List.length rest)
+        | Ok (v, rest) ->
+          if n_lt (n_of_int 131072) cost then Printf.sprintf "ok ?big %x" (len - List.length rest)
+          else Printf.sprintf "ok %s %x" (render_value d v) (len - List.length rest)
         | Err _ -> "err" | Panic -> "panic" | OutOfFuel -> "hang") in
     let (impl, obs_core, obs_bucket) = (match split_ws obs with
         | ["ok"; vt; c; bk] ->
           let consumed = int_of_string ("0x" ^ c) in
-          ((try Some (IOk (parse_value d vt, nat_of_int consumed, bk = "L")) with Parse _ -> None),
-           Printf.sprintf "ok %s %x" vt consumed, bk)
+          (* values with a huge zero-filled byte string are not rendered by the harness (?big<len>) *)
+          let unrendered = String.contains vt '?' in
+          ((if unrendered then Some (IOk (VNone, nat_of_int consumed, bk = "L"))
+            else (try Some (IOk (parse_value d vt, nat_of_int consumed, bk = "L")) with Parse _ -> None)),
+           (if unrendered then Printf.sprintf "ok ?big %x" consumed else Printf.sprintf "ok %s %x" vt consumed), bk)
         | ["err"; bk] -> (Some (IErr (bk = "L")), "err", bk)
         | ["panic"] -> (Some IPanic, "panic", "s")
         | _ -> (None, obs, "?")) in
     let prop = (match impl with Some o -> c12_prop t bs o | None -> false) in
     let model_eq = (model_str = obs_core) && bucket_ok obs_bucket in
-    let finding = if prop then "-" else if map_noncanonical t bs then "map-noncanonical" else "-" in
+    let finding = if prop then "-" else if bytes_overrun t bs then "bytes-overrun"
+      else if map_noncanonical t bs then "map-noncanonical" else "-" in
     let outcome_tag = (match res with Ok _ -> "m-ok" | Err _ -> "m-err" | Panic -> "m-panic" | OutOfFuel -> "m-nofuel") in
     let tags = String.concat "," (
         ["dec"; "gen-" ^ kind; outcome_tag; (if wf_ty t then "wf" else "NOT-WF")]
@@ -47,4 +53,10 @@ let check inp obs =
                     (hex_of_n cost)) }
   | _ -> fail "C12: bad input %s" (if String.length inp > 200 then String.sub inp 0 200 else inp)
 
-let () = run_driver check
+(* the model materialises byte strings of up to 1 MiB as lists: the extracted list functions are
+   not tail recursive, so re-execute under a large stack *)
+let () =
+  if Sys.getenv_opt "VERIF_BIGSTACK" = None then
+    exit (Sys.command ("ulimit -s 4000000 2>/dev/null || ulimit -s unlimited 2>/dev/null; VERIF_BIGSTACK=1 exec "
+                       ^ Filename.quote Sys.executable_name))
+  else run_driver check
